@@ -123,8 +123,19 @@ class DigitalOutput(SystemWideDevice):
 
     def pulse(self, pulse_ms):
         """Pulse digital output."""
+        if not isinstance(pulse_ms, int) or pulse_ms < 0:
+            raise AssertionError("Pulse_ms {} is not valid.".format(pulse_ms))
+
         if self.type == "driver":
-            self.hw_driver.pulse(PulseSettings(power=1.0, duration=pulse_ms))
+            if 0 < pulse_ms <= self.platform.features['max_pulse']:
+                self.hw_driver.pulse(PulseSettings(power=1.0, duration=pulse_ms))
+            else:
+                # longer than the platform can time in hardware: time it in software like Driver does
+                self.delay.reset(name='timed_disable',
+                                 ms=pulse_ms,
+                                 callback=self.disable)
+                self.hw_driver.enable(PulseSettings(power=1.0, duration=0),
+                                      HoldSettings(power=1.0, duration=None))
         elif self.type == "light":
             self.hw_driver.set_fade(1.0, -1, 1.0, -1)
             self.platform.light_sync()
@@ -145,6 +156,7 @@ class DigitalOutput(SystemWideDevice):
         if self.type == "driver":
             self.hw_driver.enable(PulseSettings(power=1.0, duration=0),
                                   HoldSettings(power=1.0, duration=None))
+            self.delay.remove(name='timed_disable')
         elif self.type == "light":
             self.hw_driver.set_fade(1.0, -1, 1.0, -1)
             self.platform.light_sync()
@@ -162,6 +174,7 @@ class DigitalOutput(SystemWideDevice):
         """Disable digital output."""
         if self.type == "driver":
             self.hw_driver.disable()
+            self.delay.remove(name='timed_disable')
         elif self.type == "light":
             self.hw_driver.set_fade(0.0, -1, 0.0, -1)
             self.platform.light_sync()
